@@ -30,7 +30,8 @@ CHECKS = {
         "a library abort or fatal signal is recorded, and on an ASan+UBSan build with fiber annotations; any abort or sanitizer report is a violation. "
         "spec/EventExec.tla model-checks the dispatcher's pointer discipline; spec/DataArray.tla model-checks the capacity discipline of the data arrays "
         "(count, believed capacity, allocated elements per backing array) for all call sequences over 4 small objects, and spec/DataArrayTrace.tla judges the "
-        "allocator-observed capacity state after every call of seeded valid histories across the real doubling thresholds by the model's own predicates.",
+        "allocator-observed capacity state after every call of seeded valid histories across the real doubling thresholds by the model's own predicates; "
+        "Apalache shows the capacity invariant inductive for unbounded counts with the real initial capacity (and not inductive for the copy rule of the code as found).",
    note="Exploration under instrumentation guided by the specifications' generators; not a proof of memory safety. UBSan null/alignment checks are off by design.",
    technique="spec-generated valid behaviours replayed under ASan/UBSan and release asserts; TLA+ capacity-discipline model with allocator-observed trace validation"),
  "C04": dict(level="model_checking", design="DESIGN.md §4 C04",
